@@ -196,12 +196,24 @@ theorem after_train_net_only (s : State) (ops : List Op) (i : Nat)
   rw [trainability_is_last_train_call s _ i hp hn, List.foldl_append]
   rfl
 
-/-- `backward()` raises exactly when some quantizer reached by the forward has sampling disabled
-while its coefficients still carry the graph of an earlier, already back-propagated, sampling
-(observed on the real MPS models; not demanded by the property) -/
+/-- `backward()` raises exactly on the tree where `sample_alpha_none` kept the graph, when some
+quantizer reached by the forward has sampling disabled while its coefficients still carry the
+graph of an earlier, already back-propagated, sampling -/
 theorem backward_raises_iff (s : State) :
-    bwdError s = true ↔ ∃ j q, s.qs[j]? = some q ∧ (reached s).contains j = true ∧
-      q.sampler = .none ∧ q.thetaGraph = true := bwdError_iff s
+    bwdError s = true ↔ s.detachOnNone = false ∧ ∃ j q, s.qs[j]? = some q ∧
+      (reached s).contains j = true ∧ q.sampler = .none ∧ q.thetaGraph = true := bwdError_iff s
+
+/-- **every sequence can be completed**: with `sample_alpha_none` detaching the coefficients it
+keeps, `forward + backward(loss + cost)` raises after no sequence of calls — in particular not
+after `forward+backward ; update_softmax_options(disable_sampling=True)` -/
+theorem backward_never_raises (s : State) (hd : s.detachOnNone = true) (ops : List Op) :
+    bwdError (run s ops) = false := by
+  cases h : bwdError (run s ops) with
+  | false => rfl
+  | true =>
+    have := ((backward_raises_iff _).mp h).1
+    rw [run_detach, hd] at this
+    cases this
 
 /-! ## regression witnesses: the pinned tree -/
 
@@ -227,6 +239,22 @@ theorem pinned_partial_update_resets_sampler :
     let q : Qtz := { o := { temperature := 1, gumbel := true }, sampler := .gs, alphaT := 0 }
     (updQPinned q (some (1/2)) none none none).sampler = .sm ∧
     (updQ .mps q (some (1/2)) none none none).sampler = .gs := by
+  decide
+
+/-- one MPS quantizer (three alternatives) reached by its layer -/
+def oneQuantizer (detach : Bool) : State :=
+  { method := .mps, ts := [mkTensor (.qalpha 3) false, mkTensor .weight false],
+    layers := [{ refs := [0], qs := [0] }],
+    qs := [{ o := { temperature := 1 }, sampler := .sm, alphaT := 0 }], detachOnNone := detach }
+
+/-- on the tree where `sample_alpha_none` kept the graph, the sequence
+`forward+backward ; update_softmax_options(disable_sampling=True) ; forward+backward` of C11's own
+alphabet could not be completed (`backward()` raised); with the detach it can, and the saved
+coefficients simply receive no gradient -/
+theorem pinned_backward_raises_after_disable :
+    bwdError (run (oneQuantizer false) [.fwdbwd, .upd none none none (some true)]) = true ∧
+    bwdError (run (oneQuantizer true) [.fwdbwd, .upd none none none (some true)]) = false ∧
+    grads (run (oneQuantizer true) [.fwdbwd, .upd none none none (some true)]) = [.none, .present] := by
   decide
 
 /-! ## the hypotheses are satisfiable -/
